@@ -83,7 +83,7 @@ def data_table(chk, F):
 
 def mirror(chk, F):
     # suffix arm in eval_expr
-    fn = F.find(CORE, "runtime::eval::eval_expr", inline=True, keep=("Option::<T>", "Iterator", "bool::then"))
+    fn = F.find(CORE, "runtime::eval::eval_expr", inline=True, keep=("Option::<T>", "Iterator", "bool>::then"))
     fk = "rink_core::runtime::eval::eval_expr"
     adds = [(bb, t) for bb, t in fn.calls() if "callee" in t and t["callee"]["path"].endswith("core::ops::arith::Add<&'b types::number::Number>>::add")
             and "name_base_scale" in ap_str(fn.apath(t["args"][1]))]
@@ -140,7 +140,7 @@ def nbs_blocks(ap, out=None):
 
 def gates(chk, F):
     # suffix gate is checked in C02 (degree-suffix:dimensionless); repeat the instance here for this property
-    fn = F.find(CORE, "runtime::eval::eval_expr", inline=True, keep=("Option::<T>", "Iterator", "bool::then"))
+    fn = F.find(CORE, "runtime::eval::eval_expr", inline=True, keep=("Option::<T>", "Iterator", "bool>::then"))
     fk = "rink_core::runtime::eval::eval_expr"
     muls = [(bb, t) for bb, t in fn.calls() if "callee" in t and t["callee"]["path"].endswith("core::ops::arith::Mul<&'b types::number::Number>>::mul")
             and "name_base_scale" in ap_str(fn.apath(t["args"][1]))]
